@@ -61,11 +61,26 @@ Proof. vm_compute. repeat split. Qed.
 (* API: filter  host.name == host  with filter_vars {host = "h"}: the recogniser would resolve the variable
    to "h" (and return host h) although evaluation sees the host object there and matches nothing.  Since the
    fix (GetFilterTargets: shadowedVars) such a query is evaluated. *)
+Definition ar_w_navv (t : ar_target) (n : ar_str) : ar_value :=
+  if ar_str_eqb n ar_s_check_command then AVObj [] else AVEmpty.
+
 Lemma ar_api_filter_var_fixed :
   let f := AEEq ar_w_hostname (AEVar ar_s_host) in
   let fv := [(ar_s_host, AVStr ar_w_h)] in
-  ar_api_vars_ok fv = false /\
+  ar_api_vars_ok false fv = false /\
   ar_target_hosts (Some fv) f = Some [ar_w_h] /\
-  ar_api_fast ar_w_genv ar_w_inv false fv f = Some [] /\
-  ar_api_plain ar_w_genv ar_w_inv false fv f = Some [].
+  ar_api_fast ar_w_genv ar_w_navv ar_w_inv false fv f = Some [] /\
+  ar_api_plain ar_w_genv ar_w_navv ar_w_inv false fv f = Some [].
 Proof. vm_compute. repeat split. Qed.
+
+(* the same with a filter variable named like a navigation field:  host.name == check_command  (an object
+   at evaluation) and  host.name == check_period  (null at evaluation) with the variable set to "h" *)
+Lemma ar_api_nav_var_fixed :
+  forall nv, In nv [ar_s_check_command; ar_s_check_period] ->
+  let f := AEEq ar_w_hostname (AEVar nv) in
+  let fv := [(nv, AVStr ar_w_h)] in
+  ar_api_vars_ok false fv = false /\
+  ar_target_hosts (Some fv) f = Some [ar_w_h] /\
+  ar_api_fast ar_w_genv ar_w_navv ar_w_inv false fv f = Some [] /\
+  ar_api_plain ar_w_genv ar_w_navv ar_w_inv false fv f = Some [].
+Proof. intros nv [E|[E|[]]]; subst nv; vm_compute; repeat split. Qed.
